@@ -193,7 +193,12 @@ def body_builder(spec):
         conn = PipeConnection("app", executor=ex)
         import netqasm.sdk.builder as B
         old = B.get_angle_spec_from_float
-        B.get_angle_spec_from_float = lambda angle, tol=1e-4: list(steps)
+        asked = []
+
+        def stub(angle, tol=1e-4):
+            asked.append(tol)
+            return list(steps)
+        B.get_angle_spec_from_float = stub
         try:
             q = Qubit(conn)
             getattr(q, "rot_" + axis)(angle=1.0)
@@ -205,7 +210,9 @@ def body_builder(spec):
         ok = z3.BoolVal(len(got) == k)
         if len(got) == k:
             ok = z3.And(*[z3.And(z3.BoolVal(g[0] == "rot_" + axis.lower()), EQ(g[2], s[0]), EQ(g[3], s[1])) for g, s in zip(got, steps)]) if k else z3.BoolVal(True)
-        return [Ob("one_rotation_per_step_same_axis_same_order", ok, {"axis": axis}, info={"steps": k, "emitted": len(got)})]
+        return [Ob("one_rotation_per_step_same_axis_same_order", ok, {"axis": axis}, info={"steps": k, "emitted": len(got)}),
+                # the builder may not ask for a coarser approximation than the documented 1e-4 (in units of pi)
+                Ob("builder_asks_for_documented_tolerance", len(asked) == 1 and asked[0] <= 1e-4, {"axis": axis}, info={"tolerances_requested": [repr(t) for t in asked]})]
     return body
 
 
